@@ -3,8 +3,57 @@
 The text written by the ground task (to_prolog, with and without cycle breaking, with and without --compact) is
 re-parsed and re-evaluated by the real system and judged against the ORIGINAL program's exact probabilities
 (Semantics.tla); the exported DIMACS is re-read and TLC checks it has exactly the models of the internal CNF."""
+import hashlib
+import json
+import os
+
 from .. import pl, progs, semcheck, tlc
 from . import common
+
+CORPUS_SEED = 252525
+KNOWN_CASES = os.path.join(os.path.dirname(os.path.dirname(os.path.dirname(os.path.abspath(__file__)))), "tools", "c25_corpus_known.json")
+
+
+def corpus():
+    """A FIXED set of programs (independent of the run's seed).  to_prolog of the pinned tree is wrong on many programs with
+    negation, evidence or non-ground ADs (KF12, KF13, KF14: broad signatures); on this corpus the failing (program, variant)
+    pairs are listed one by one in tools/c25_corpus_known.json, so that any OTHER pair that starts to fail is reported."""
+    P = semcheck.gen_programs(CORPUS_SEED, 160, "strat", p_edge=False)
+    P += common.family_small(80, CORPUS_SEED)
+    P += common.selfpred_family(40, CORPUS_SEED)
+    P += common.evidence_family(60, CORPUS_SEED)
+    return P
+
+
+def case_key(p, vn):
+    q = {k: v for k, v in p.items() if k != "id"}
+    return "%s/%s" % (hashlib.sha1(progs.canon(q).encode()).hexdigest()[:12], vn)
+
+
+def _variants(p):
+    t = progs.render(p)
+    return [("default", {"text": t}),
+            ("export", {"_task": "ground_export", "text": t}),
+            ("export-dag", {"_task": "ground_export", "text": t, "break_cycles": True})]
+
+
+def run_corpus(ctx):
+    P = corpus()
+    unstable = set(json.load(open(KNOWN_CASES)).get("unstable_programs", [])) if os.path.exists(KNOWN_CASES) else set()
+    P = [p for p in P if case_key(p, "").split("/")[0] not in unstable]
+
+    def sig_extra(p, j, r, vn):
+        fs = progs.features(p)
+        return {"has_negation": "negation" in fs, "has_evidence": "evidence" in fs, "ad_nonground": "ad_nonground" in fs,
+                "corpus": True, "corpus_case": case_key(p, vn)}
+
+    def post(P_, J, runs):
+        common.relational(ctx, P_, J, runs, clause="export-changes-answer",
+                          only=lambda p, j: j["valid"] and j["mustAnswer"] and not j["undefPreds"], sig_extra=sig_extra)
+    before = ctx.evaluations
+    common.sem_check(ctx, P, _variants, level="translation_validation", post=post, write=False, sig_extra=sig_extra)
+    return {"programs": len(P), "runs": ctx.evaluations - before, "excluded_unstable_programs": len(unstable)}
+
 
 
 def run(ctx):
@@ -55,6 +104,7 @@ def run(ctx):
 
     J, runs, cov = common.sem_check(ctx, P, variants, level="translation_validation", post=post, write=False,
                                     sig_extra=sig_extra)
+    cov["corpus"] = run_corpus(ctx)
     # DIMACS
     # the ground task's --keep-duplicates: a clause derived twice keeps both copies in the formula and in the CNF
     jobs = [("ground_export", {"text": progs.render(p), "fmt": "cnf"}) for p in P] + \
